@@ -570,22 +570,25 @@ def S1_opts(ctx, rule):
             continue
         # constants written to the order field of the returned value
         vals = set()
+        temps = {}
         for bb, si, s in b.stmts():
-            if s["k"] != "assign" or s["rv"]["k"] != "agg":
-                continue
-            rv = s["rv"]
-            if rv.get("def") == "stream_order::StreamOrder":
-                # where does it go?
+            if s["k"] == "assign" and s["rv"]["k"] == "agg" and s["rv"].get("def") == "stream_order::StreamOrder":
                 tgt = s["pl"]
                 if strip_proj(tgt["p"])[:1] == (order_idx,):
-                    vals.add(rv["variant"])
-                else:
-                    # temp used in StreamOpts aggregate
-                    for bb2, si2, s2 in b.stmts():
-                        if s2["k"] == "assign" and s2["rv"]["k"] == "agg" and s2["rv"].get("def") == "stream_opts::StreamOpts":
-                            o = s2["rv"]["ops"][order_idx]
-                            if o.get("pl", {}).get("l") == tgt["l"]:
-                                vals.add(rv["variant"])
+                    vals.add(s["rv"]["variant"])
+                elif not tgt["p"]:
+                    temps[tgt["l"]] = s["rv"]["variant"]
+        for bb, si, s in b.stmts():
+            if s["k"] != "assign":
+                continue
+            rv = s["rv"]
+            if rv["k"] == "use" and rv["op"].get("pl", {}).get("l") in temps and not rv["op"]["pl"]["p"]:
+                if strip_proj(s["pl"]["p"])[:1] == (order_idx,):
+                    vals.add(temps[rv["op"]["pl"]["l"]])
+            if rv["k"] == "agg" and rv.get("def") == "stream_opts::StreamOpts":
+                o = rv["ops"][order_idx]
+                if o.get("pl", {}).get("l") in temps:
+                    vals.add(temps[o["pl"]["l"]])
         name = sig["name"]
         where = ctx.model.where(b)
         if sig.get("impl_trait") == "std::default::Default" or name == "default":
@@ -1188,6 +1191,20 @@ def lock_table_chain_ok(ctx, body, collect_bb, roles):
     for s in g:
         if not (s.kind == "param" and s[2] == 1 and s[3][:1] == (roles["graph"],)):
             return False, "lock table is not built from the graph's own function storage"
+    # the collected table is not permuted / resized afterwards
+    fl = ctx.model.flow
+    for bb, t2 in body.calls():
+        p2 = callee_path(t2) or ""
+        if p2 in ("std::ops::IndexMut::index_mut", "std::ops::DerefMut::deref_mut", "std::ops::Index::index", "std::ops::Deref::deref"):
+            continue
+        for a in t2["args"]:
+            if a["k"] == "const":
+                continue
+            ty = a["pl"]["ty"]
+            if ty.startswith("&mut [") or ty.startswith("&mut std::vec::Vec<"):
+                for s in fl.sources_operand(body, a):
+                    if s.kind == "alloc" and s[1] == body.id and s[2] == collect_bb and not s[3]:
+                        return False, "the per-function lock table is modified after construction by %s (position i would no longer be function i)" % p2
     return True, ""
 
 
